@@ -13,10 +13,11 @@ Qed.
     requiredness — except the rows of the recorded finding C20-F1 *)
 Lemma schema_loader_agree :
   forall r, In r (all_rows schema_tbl loader_tbl) -> guard_F1 fixed_F1a fixed_F1b r = false ->
+            guard_F6_row schema_tbl loader_tbl r = false ->
             row_agrees schema_tbl loader_tbl r = true.
 Proof.
-  intros r Hin Hg. assert (H := tables_agree). unfold tables_ok in H.
-  rewrite forallb_forall in H. specialize (H r Hin). rewrite Hg in H. exact H.
+  intros r Hin Hg Hg6. assert (H := tables_agree). unfold tables_ok in H.
+  rewrite forallb_forall in H. specialize (H r Hin). rewrite Hg, Hg6 in H. exact H.
 Qed.
 
 Lemma pinned_recorded : recorded_all_disagree (known_F1a ++ known_F1b) pinned_schema_tbl pinned_loader_tbl = true.
